@@ -49,8 +49,20 @@ def HOp.ok (S : Nat) : HOp → Prop
   | .moveKeepOld => False
   | _ => True
 instance (S : Nat) (op : HOp) : Decidable (op.ok S) := by cases op <;> simp only [HOp.ok] <;> infer_instance
-def histValid (S : Nat) (ops : List HOp) : Prop := ∀ op ∈ ops, op.ok S
-instance (S : Nat) (ops : List HOp) : Decidable (histValid S ops) := by unfold histValid; infer_instance
+/-- the state size the buffer in use has after the operation (a move assignment hands over the source's) -/
+def HOp.nextSize (S : Nat) : HOp → Nat
+  | .moveAssignFrom S2 _ _ => S2
+  | .moveKeepOld => 0
+  | _ => S
+/-- every `addElement` gets a vector of the state size the buffer has AT THAT POINT of the history -/
+def histValid : Nat → List HOp → Prop
+  | _, [] => True
+  | S, op :: ops => op.ok S ∧ histValid (op.nextSize S) ops
+instance histValidDec : (S : Nat) → (ops : List HOp) → Decidable (histValid S ops)
+  | _, [] => isTrue trivial
+  | S, op :: ops => by
+    unfold histValid
+    exact @instDecidableAnd _ _ _ (histValidDec (op.nextSize S) ops)
 
 /-! #### InitSurveillanceAreaGrid -/
 def gridCase (nx ny N : Nat) (L : Layout) : Case := do
